@@ -78,7 +78,7 @@ def check(tier, replay, prop="C03"):
         gens=[("one behaviour per transition: every (start,stride,count) incl. invalid, ranks 1-2, fixed and unlimited, int32", "Gen_SDArray.tla", "Gen_SDArray_cover.cfg", "cover", {"sample": 30000}),
               ("one behaviour per transition x 9 number types x 3 flavours", "Gen_SDArray.tla", "Gen_SDArray_types.cfg", "cover", {"sample": 20000}),
               ("every history of <= 3 calls after creation (rank 1-2, fixed/unlimited, contiguous / chunked / deflate / 8-byte linked blocks, reopen in between)", "Gen_SDArray.tla", "Gen_SDArray_hist.cfg", "cover", {"sample": 4000}),
-              ("simulate depth 16: ranks 1-3, dims <= 5, strides 1-3, all types", "Gen_SDArray.tla", "Gen_SDArray_sim.cfg", "sim", {"num_quick": 60, "num": 2500, "depth": 17, "sample": 4000})],
+              ("simulate depth 16: ranks 1-3, dims <= 5, strides 1-3, all types", "Gen_SDArray.tla", "Gen_SDArray_sim.cfg", "sim", {"num_quick": 60, "num": 1500, "depth": 17, "sample": 4000, "timeout": 4000})],
         mutators={"Create", "Write", "Reopen"}, need_actions=["Info", "Reopen"],
         sig_fn=nofill_unlimited, tv_quick=10000,
         assumptions=["requests with a zero count are not generated (the library treats them as empty and succeeds)",
